@@ -350,17 +350,24 @@ def tridonic_case(seed, part, i, res):
 
 
 def match_optional(got, items):
-    """got must be items in order, where items flagged optional (near a subscription boundary) may be absent."""
-    i = 0
+    """got must be items in order, where items flagged optional (near a subscription boundary) may be absent.
+    (dynamic programme, not greedy: an optional item may equal the required one that follows it)"""
+    # reach = set of item positions i such that got[:g] can be matched against items[:i] with every skipped item optional
+    reach = {0}
     for g in got:
-        while i < len(items) and items[i][0] != g:
-            if items[i][1]:
-                return False          # a required item was skipped
-            i += 1
-        if i >= len(items):
+        nxt = set()
+        for i in reach:
+            j = i
+            while j < len(items):
+                if items[j][0] == g:
+                    nxt.add(j + 1)
+                if items[j][1]:
+                    break             # a required item cannot be skipped
+                j += 1
+        if not nxt:
             return False
-        i += 1
-    return not any(req for x, req in items[i:])
+        reach = nxt
+    return any(not any(req for x, req in items[i:]) for i in reach)
 
 
 def fmt(z):
